@@ -19,8 +19,8 @@ import (
 type simCtx struct {
 	w    *World
 	a    *SimAnchors
-	recv string // receiver parameter name of the function under analysis
-	pc   string // name of the PC parameter (exec) or "" (helpers use roles)
+	recv string           // receiver parameter name of the function under analysis
+	pc   string           // name of the PC parameter (exec) or "" (helpers use roles)
 	am   map[string]int64 // AddressMode name -> value
 	rt   map[string]int64 // ReportType name -> value
 	oc   map[string]int64 // OpCode
@@ -204,8 +204,8 @@ func (v *execView) addrKind(t *T) (addrKind, bool) {
 
 type modeInfo struct {
 	Imm, Indirect, PreDec, PostInc bool
-	F                             string
-	Lvl                           int
+	F                              string
+	Lvl                            int
 }
 
 func (c *simCtx) modeInfo(m int64) (modeInfo, bool) {
@@ -285,11 +285,11 @@ func (v *execView) pathInfo(p *Path) (execPathInfo, string) {
 
 // reportOf decodes a call event to the simulator's Report fan-out.
 type reportEv struct {
-	Type    int64
-	Addr    *T
-	WIdx    *T
-	Cycle   *T
-	TypeOK  bool
+	Type   int64
+	Addr   *T
+	WIdx   *T
+	Cycle  *T
+	TypeOK bool
 }
 
 func (c *simCtx) reportOf(e *Event) (reportEv, bool) {
@@ -383,14 +383,14 @@ func opLetter(b byte) string { return string([]byte{b}) }
 // FOLD.jump, SPL.order, PAIR.report (executor part), MOD.*, NI.
 
 type execAnalysis struct {
-	v      *execView
-	paths  []*Path
-	infos  []execPathInfo
-	err    string
+	v     *execView
+	paths []*Path
+	infos []execPathInfo
+	err   string
 	// helper parameter roles derived from call sites: helper -> param index -> role
 	roles map[*ssa.Function][]string
 	// per helper, the set of opcodes dispatching to it
-	opsOf map[*ssa.Function]map[int64]bool
+	opsOf   map[*ssa.Function]map[int64]bool
 	roleErr []string
 	cands   map[*ssa.Function][]map[string]int
 	ncalls  map[*ssa.Function]int
